@@ -185,6 +185,47 @@ def selftest(ctx, vh, prop, pre, programs):
     return "perturbed expected value rejected (%s)" % res[0].get("key")
 
 
+def selftest_log(ctx, vh, prop, pre, programs):
+    """Binding self-test for the foreign-call log: drop one expected call, require rejection."""
+    victim = None
+    for p in programs:
+        if not p.get("typed"):
+            continue
+        q = json.loads(json.dumps(p))
+        for e in q["envs"]:
+            if e["exp"]["log"]:
+                e["exp"]["log"] = e["exp"]["log"][1:]
+                victim = q
+                break
+        if victim:
+            break
+    if victim is None:
+        raise verif.ToolError("self-test: no program with a foreign call")
+    res = replay(ctx, vh, prop, pre, [victim], "selftest-log")
+    if res[0].get("ok"):
+        raise verif.ToolError("binding self-test failed: a dropped foreign call was accepted")
+    return selftest(ctx, vh, prop, pre, programs) + "; dropped foreign call rejected (%s)" % res[0].get("key")
+
+
+def run_pinned(ctx, vh, prop):
+    """Pinned regressions (replays/pinned/<prop>-*.json): programs that once exposed a defect."""
+    d = os.path.join(verif.REPLAYS, "pinned")
+    n = 0
+    for f in sorted(os.listdir(d)) if os.path.isdir(d) else []:
+        if not (f.startswith(prop + "-") and f.endswith(".json")):
+            continue
+        case = json.load(open(os.path.join(d, f)))["case"]["input"]
+        if "prelude" not in case or "body" not in case:
+            continue
+        pre = case["prelude"]
+        prog = {k: v for k, v in case.items() if k != "prelude"}
+        res = replay(ctx, vh, prop, pre, [prog], "pinned-" + f[:-5], batch=1)
+        ctx.absorb(res)
+        n += 1
+    ctx.cov["pinned_regressions"] = n
+    return n
+
+
 def load_replay(ctx):
     case = json.load(open(ctx.replay))["case"]["input"]
     if "prelude" not in case or "body" not in case:
